@@ -29,7 +29,7 @@ RULE = (
 
 def plan(tier, seed):
     specs = []
-    nscen = 6 if tier == 'quick' else 16
+    nscen = 6 if tier == 'quick' else 40
     ops = sorted(OPS)
     for kind in ('autoref', 'bdd'):
         for j, op in enumerate(ops):
@@ -38,10 +38,10 @@ def plan(tier, seed):
             specs.append(dict(kind='faults', op=op, manager=kind,
                               scenarios=nscen, base=seed * 1000 + j * 37,
                               hashseed=j % 8))
-    nn = 24 if tier == 'thorough' else 8
+    nn = 64 if tier == 'thorough' else 8
     for k in range(nn):
         specs.append(dict(kind='natural', sub=k, n=4 + k % 3,
-                          steps=1200 if tier == 'thorough' else 600,
+                          steps=3000 if tier == 'thorough' else 600,
                           manager='autoref' if k % 2 == 0 else 'bdd',
                           starts=4 if k % 4 < 3 else None, hashseed=k))
     meta = dict(
